@@ -137,13 +137,25 @@ class FakeS3:
         self._pt("del<", Key)
         return {}
 
-    def list_objects_v2(self, Bucket, Prefix="", MaxKeys=1000, **kw):
+    PAGE = 2
+
+    def list_objects_v2(self, Bucket, Prefix="", MaxKeys=1000, ContinuationToken=None, **kw):
+        """One page (at most min(MaxKeys, PAGE) keys) with S3's paging fields: IsTruncated + NextContinuationToken;
+        the request's own token is echoed back as ContinuationToken."""
         self._pt("list>", Prefix)
-        ks = [k for k in sorted(self.o) if k.startswith(Prefix)][:MaxKeys]
-        if not ks:
-            return {"KeyCount": 0}
-        return {"Contents": [{"Key": k, "Size": len(self.o[k][0]), "LastModified": self.o[k][2]} for k in ks],
-                "KeyCount": len(ks)}
+        ks = [k for k in sorted(self.o) if k.startswith(Prefix)]
+        if ContinuationToken:
+            ks = [k for k in ks if k > ContinuationToken]
+        n = max(1, min(MaxKeys, self.PAGE))
+        page, rest = ks[:n], ks[n:]
+        out = {"KeyCount": len(page), "IsTruncated": bool(rest), "Prefix": Prefix}
+        if ContinuationToken:
+            out["ContinuationToken"] = ContinuationToken
+        if page:
+            out["Contents"] = [{"Key": k, "Size": len(self.o[k][0]), "LastModified": self.o[k][2]} for k in page]
+        if rest:
+            out["NextContinuationToken"] = page[-1]
+        return out
 
     def get_paginator(self, name):
         assert name == "list_objects_v2"
